@@ -93,11 +93,38 @@ class W:
         self._nform = getattr(self, "_nform", 0) + 1
         k = (self._nform * 7 + len(objs)) % (6 if allow_set else 5)
         self.forms = getattr(self, "forms", {})
+        objs = list(objs)
+        if objs and self._nform % 2 == 0:
+            # the elements are exactly what ANOTHER owner's collection holds (in its order, for a module list): hand over that live
+            # collection itself -- "move everything from there to here" -- which the operation empties while it walks it
+            live = self._live_collection(objs)
+            if live is not None:
+                self.forms["live-collection"] = self.forms.get("live-collection", 0) + 1
+                return live
         name = ["list", "gen", "tuple", "iter", "list", "set"][k]
         self.forms[name] = self.forms.get(name, 0) + 1
         objs = list(objs)
         return (objs if name == "list" else (x for x in objs) if name == "gen" else tuple(objs) if name == "tuple"
                 else iter(objs) if name == "iter" else set(objs))
+
+    def _live_collection(self, objs):
+        ids = [id(x) for x in objs]
+        if len(set(ids)) != len(ids):
+            return None
+        for n, o in self.obj.items():
+            kind = self.kind[n]
+            if kind == "IR":
+                if [id(x) for x in o.modules] == ids:
+                    return o.modules
+                continue
+            for f in FIELDS.get(kind, {}):
+                coll = getattr(o, f, None)
+                try:
+                    if coll is not None and len(coll) == len(ids) and set(map(id, coll)) == set(ids):
+                        return coll
+                except Exception:  # noqa: BLE001
+                    pass
+        return None
 
     def _run(self, it):
         g, c = self.g, it[0]
